@@ -12,6 +12,7 @@ import (
 	"os"
 	"path/filepath"
 	"reflect"
+	"runtime"
 	"sort"
 	"sync"
 	"testing"
@@ -37,6 +38,7 @@ type c11Case struct {
 	Fields  []string    `json:"fields"` // exported field names of the fresh struct type of this case
 	Workers [][]c11Op   `json:"workers"`
 	Repeat  int         `json:"repeat"`
+	Procs   int         `json:"procs,omitempty"` // GOMAXPROCS while the goroutines run (0 = leave as it is): fewer Ps than goroutines makes them share per-P pool slots
 	Src     []string    `json:"src"`
 }
 
@@ -56,6 +58,9 @@ func c11Fixed(fields []string) map[string]string {
 		"/fx/ext.jet":     `{{ extends "/fx/layout.jet" }}{{ block body() }}ext-body {{ g_read }}{{ end }}`,
 		"/fx/layout.jet":  `<layout>{{ block body() }}default{{ end }}</layout>`,
 		"/fx/fail.jet":    `before{{ range xs }}{{ .NoField }}{{ end }}after`,
+		// try inside try inside try, each with output of its own that depends on the data
+		"/fx/trynest.jet": `{{ try }}A{{ .U.Name }}{{ try }}B{{ range xs }}{{ . }}{{ end }}{{ try }}C{{ .U.Name }}{{ .U.NoField }}{{ catch }}c{{ end }}{{ .U.Name }}{{ end }}{{ try }}{{ noSuchThing }}{{ catch e }}D{{ try }}E{{ .U.Name }}{{ end }}{{ end }}tail{{ .U.Name }}{{ end }}{{ try }}F{{ include "/fx/part.jet" .U }}{{ end }}`,
+		"/fx/tryblock.jet": `{{ import "/fx/lib.jet" }}{{ try }}{{ yield box(title=.U.Name) content }}{{ try }}in{{ .U.Name }}{{ end }}{{ end }}{{ end }}{{ try }}{{ range i := ints(0, 3) }}{{ try }}{{ i }}{{ if i == 1 }}{{ .U.NoField }}{{ end }}ok{{ catch }}!{{ end }}{{ end }}{{ end }}`,
 	}
 }
 
@@ -84,6 +89,10 @@ func genC11(t *rapid.T) c11Case {
 	}
 	sort.Strings(names)
 	nw := rapid.IntRange(4, 12).Draw(t, "workers")
+	if rapid.IntRange(0, 3).Draw(t, "crowd") == 0 {
+		nw = rapid.IntRange(13, 32).Draw(t, "manyWorkers")
+	}
+	c.Procs = rapid.SampledFrom([]int{0, 0, 2, 4}).Draw(t, "procs")
 	for w := 0; w < nw; w++ {
 		var ops []c11Op
 		for k := rapid.IntRange(5, 25).Draw(t, "nops"); k > 0; k-- {
@@ -196,7 +205,10 @@ func judgeC11(c c11Case) (v core.Verdict) {
 		}
 	}
 	v.NonTrivial = overlap
-	v.Label(fmt.Sprintf("dev:%v", c.Dev), fmt.Sprintf("workers:%d", len(c.Workers)))
+	v.Label(fmt.Sprintf("dev:%v", c.Dev), fmt.Sprintf("workers:%d", (len(c.Workers)+3)/4*4), fmt.Sprintf("procs:%d", c.Procs))
+	if c.Procs > 0 {
+		defer runtime.GOMAXPROCS(runtime.GOMAXPROCS(c.Procs))
+	}
 	// The concurrent runs come first: the struct type of this case has never been seen, so the
 	// field cache is filled by racing goroutines. The serial expectations are computed afterwards.
 	type obs struct {
@@ -277,7 +289,7 @@ func mustJSON(x interface{}) json.RawMessage {
 
 func TestC11(t *testing.T) {
 	core.Run(t, "C11",
-		"operation mixes: 4-12 goroutines x 5-25 operations (GetTemplate+Execute of pool templates incl. failing ones and fixed templates ranging over slices/maps/arrays/ints()/slice(), accessing fields of a reflect.StructOf type created for the case, yields, includes, extends, try; GetTemplate; Set.Parse incl. unparsable source; AddGlobal / LookupGlobal on unrelated keys or rewriting the same value; InMemLoader Set (identical content or unrelated files) / Delete (unrelated files)) on one fresh Set (development mode on/off), barrier start, repeated 1-3 times; binary built with -race and halt_on_error; every concurrent Execute compared with the same call alone on a private identically built Set; non-trivial = >=2 executions of the same template name race for its first load",
+		"operation mixes: 4-32 goroutines (on all, 2 or 4 Ps) x 5-25 operations (GetTemplate+Execute of pool templates incl. failing ones and fixed templates ranging over slices/maps/arrays/ints()/slice(), accessing fields of a reflect.StructOf type created for the case, yields, includes, extends, try (also nested and around yields / ranges); GetTemplate; Set.Parse incl. unparsable source; AddGlobal / LookupGlobal on unrelated keys or rewriting the same value; InMemLoader Set (identical content or unrelated files) / Delete (unrelated files)) on one fresh Set (development mode on/off), barrier start, repeated 1-3 times; binary built with -race and halt_on_error; every concurrent Execute compared with the same call alone on a private identically built Set; non-trivial = >=2 executions of the same template name race for its first load",
 		genC11, judgeC11)
 }
 
